@@ -154,8 +154,12 @@ def run(tier='quick', seed=0, info=None):
                "leaves) with a choice / optional / repetition, x nameguard off x all inputs over {a,b,' '} <= 4")
         bound = '<= 5 nodes, input length <= 4'
     go('small-grammars-with-cut', small, plan, domain=dom, bound=bound, exhaustive=True)
+    head = bC01.repo_head()
+    for it in items:
+        it.extra['repo_head'] = head
     if info is not None:
-        info.setdefault('bounded', []).append({'run': 'bC05', 'tier': tier, 'wall_s': round(budget.spent(), 1)})
+        info.setdefault('bounded', []).append({'run': 'bC05', 'tier': tier, 'wall_s': round(budget.spent(), 1),
+                                               'repo_head': head})
     run.summary = summary
     return items
 
